@@ -91,6 +91,20 @@ impl Vocab {
             return (0..n).map(|_| *r.pick(&self.letters)).collect();
         }
         if k == 3 { return format!("{}{}", r.pick(&self.words), r.below(100)); }
+        if k == 4 || k == 5 {
+            // inflected forms: a short stem plus a suffix the language's stemmer strips, so that stem < length
+            let suffixes: &[&str] = match self.lang.as_str() {
+                "en" => &["ing", "ings", "ed", "es", "ly", "ness", "ation", "ers", "ional"],
+                "de" => &["en", "ung", "ungen", "heit", "lich", "er", "ern", "est"],
+                "es" => &["ando", "iendo", "cion", "mente", "amos", "idades", "os"],
+                "fr" => &["ement", "ation", "eux", "euse", "ions", "ait", "es"],
+                "pt" => &["endo", "mente", "acao", "amos", "idade", "os", "eiras"],
+                "ru" => &["ами", "ого", "ение", "ий", "ая", "ов", "ться"],
+                _ => &["ing", "s"],
+            };
+            let stem: String = if r.chance(1, 2) { let w = r.pick(&self.words).clone(); w.chars().take(r.range(2, 4)).collect() } else { (0..r.range(2, 4)).map(|_| *r.pick(&self.letters)).collect() };
+            return format!("{}{}", stem, r.pick_str(suffixes));
+        }
         r.pick(&self.words).clone()
     }
     pub fn decorate(&self, r: &mut Rng, w: &str) -> String {
@@ -116,6 +130,12 @@ impl Vocab {
                 let k = r.range(1, (n - 1) / 2 + 1);
                 let pre: String = w.chars().take(k).collect();
                 let lead = if !self.func.is_empty() && r.chance(2, 3) { format!("{} ", r.pick(&self.func)) } else { String::new() };
+                // sometimes the LAST word is itself a function word that is a prefix of the leading one ("About vitamin A")
+                if !lead.is_empty() && r.chance(1, 2) {
+                    let f = lead.trim().to_string();
+                    let shorter: Vec<&String> = self.func.iter().filter(|g| g.chars().count() * 2 < f.chars().count() && f.starts_with(g.as_str())).collect();
+                    if !shorter.is_empty() { return format!("{}{} {}", lead, w, r.pick(&shorter)); }
+                }
                 return format!("{}{} {}", lead, w, pre);
             }
         }
@@ -430,7 +450,12 @@ pub fn store_case(code: &str, v: &Vocab, r: &mut Rng, name: String, o: &StoreGen
             0 => { let t = mk_title(r, &titles); titles.push(t.clone()); ops.push(Op::Add(next_id, rating(r, &mut used_ratings), t)); next_id += 1; }
             1 => { if r.chance(1, 3) { ops.push(Op::Clear); titles.clear(); } }
             2 => ops.push(Op::Limit(match r.below(7) { 0 => 0, 1 => 1, 2 => 2, 3 => 3, 4 => titles.len() + 1, 5 => titles.len().max(1) - 1 + 1, _ => 10 })),
-            3 => { let (l, rr) = r.pick(&[("[", "]"), ("", ""), ("<b>", "</b>"), ("\u{e000}", "\u{e001}"), ("a", "b"), ("\0", "\0x")]).clone(); ops.push(Op::Markers(l.to_string(), rr.to_string())); }
+            3 => {
+                let (l, rr) = r.pick(&[("[", "]"), ("", ""), ("<b>", "</b>"), ("\u{e000}", "\u{e001}"), ("a", "b"), ("\0", "\0x"), ("[", "}"), ("<b>", "]"), ("{", "]")]).clone();
+                ops.push(Op::Markers(l.to_string(), rr.to_string()));
+                // the same query again right after a marker change (derived state keyed by the query must not go stale)
+                if let Some(Op::Search(q)) = ops.iter().rev().find(|o| matches!(o, Op::Search(_))).cloned() { if r.chance(2, 3) { ops.push(Op::Search(q)); } }
+            }
             4 | 5 => ops.push(Op::Search(r.pick(&["", " ", "-", "\u{a0}", "!?"]).to_string())),
             6 => { let q = if titles.is_empty() { v.title(r) } else { let t = r.pick(&titles).clone(); query_for(v, r, &t) }; ops.push(Op::Prepare(q, r.pick(&[0usize, 1, 2, 3, 10]).clone())); }
             _ => {
@@ -519,7 +544,7 @@ pub fn reg_cases(r: &mut Rng, n: usize) -> Vec<Case> {
                     live.push((id, li)); ops.push(Op::RCreate(id, LANGS[li].to_string()));
                 }
                 2 if can_use && r.chance(1, 3) => { let k = r.below(live.len()); let (id, _) = live.remove(k); titles.retain(|e| e.0 != id); ops.push(Op::RDestroy(id)); }
-                3 if can_use => { let (id, _) = *r.pick(&live); ops.push(Op::RLimit(id, *r.pick(&[0usize, 1, 2, 3, 10, 25]))); }
+                3 if can_use => { let (id, _) = *r.pick(&live); ops.push(Op::RLimit(id, *r.pick(&[0usize, 1, 2, 3, 10, 11, 25, 100]))); }
                 4 if can_use => { let (id, _) = *r.pick(&live); let (a, b) = r.pick(&[("[", "]"), ("{{", "}}"), ("", ""), ("<", ">")]).clone(); ops.push(Op::RMarkers(id, a.to_string(), b.to_string())); }
                 5 | 6 | 7 if can_use => {
                     let (id, li) = *r.pick(&live);
